@@ -293,8 +293,7 @@ fn run_known(args: &Args) -> Report {
 fn run_replay(args: &Args) -> Report {
     let dbg = if cfg!(debug_assertions) { "1" } else { "0" };
     let prop = args.extra.first().cloned().unwrap_or_else(|| "C02".into());
-    let txt = std::fs::read_to_string(&args.file).unwrap_or_default();
-    let req = txt.split("\"request\":").nth(1).and_then(|s| s.split('"').nth(1)).unwrap_or("").to_string();
+    let req = replay_request(&args.file);
     let mut cx = Ctx { drv: Driver::spawn(&args.driver), rep: Report::new(), dbg, prop: prop.clone(), search: false };
     if req.is_empty() {
         cx.rep.notes.push("replay file has no request (no-failing-input-found replay): nothing to re-run".into());
